@@ -1043,6 +1043,56 @@ bool gen_op(Rng &r, int fam, TaskPlan &tp, uint32_t *top, const GenCfg &cfg, boo
     return ok;
 }
 
+// new contents for a cloned call, same layout: letters become other letters in text operands; in narrow format strings
+// a digit of a width / precision becomes another digit and the conversion of a long-double directive another one of
+// its class (those go to libc whatever the value); blobs holding binary data or other format strings stay as they are
+static void mutate_clone(Rng &r, Op &op) {
+    Fam fam = g_fn[op.fn].fam;
+    bool narrow_fmt = fam == FAM_FMT || (fam == FAM_SFMT && (op.fn == FN_fprintf_s || op.fn == FN_vfprintf_s || op.fn == FN_printf_s || op.fn == FN_vprintf_s));
+    for (Blob &bl : op.blobs) {
+        std::string &b = bl.bytes;
+        if (b.empty()) continue;
+        bool has_pct = false, texty = true, widey = b.size() % 4 == 0;
+        for (size_t i = 0; i < b.size(); i++) {
+            unsigned char ch = (unsigned char)b[i];
+            if (ch == '%') has_pct = true;
+            if (ch != 0 && (ch < 0x20 || ch > 0x7e)) texty = false;
+        }
+        if (widey)
+            for (size_t i = 0; i + 4 <= b.size(); i += 4) {
+                uint32_t cp;
+                memcpy(&cp, &b[i], 4);
+                if (cp >= 0x110000) widey = false;
+                if (cp == '%') has_pct = true;
+            }
+        if (narrow_fmt && (int64_t)bl.off == op.a[3] && texty) {
+            // the format string
+            for (size_t i = 0; i + 1 < b.size(); i++) {
+                if (b[i] != '%') continue;
+                size_t j = i + 1;
+                while (j < b.size() && strchr("-+ #0123456789.", b[j]) && b[j]) j++;
+                // digits of width / precision (not a leading 0 flag, not the first digit of a number: keeps it non-zero)
+                for (size_t k = i + 1; k < j; k++)
+                    if (b[k] >= '1' && b[k] <= '9' && r.chance(1, 2)) b[k] = (char)('1' + r.below(9));
+                if (j + 1 < b.size() && b[j] == 'L' && strchr("feEgGaA", b[j + 1]) && b[j + 1] && r.chance(1, 2)) b[j + 1] = "feEgGaA"[r.below(7)];
+                i = j;
+            }
+            continue;
+        }
+        if (has_pct || !(texty || widey) || !r.chance(2, 3)) continue;
+        size_t step = texty ? 1 : 4;
+        int nmut = 1 + r.below(3);
+        for (int m = 0; m < nmut; m++) {
+            size_t i = (size_t)r.below((uint32_t)(b.size() / step)) * step;
+            unsigned char ch = (unsigned char)b[i];
+            bool single = texty || (b[i + 1] == 0 && b[i + 2] == 0 && b[i + 3] == 0);
+            if (!single) continue;
+            if (ch >= 'a' && ch <= 'z') b[i] = (char)('a' + r.below(26));
+            else if (ch >= 'A' && ch <= 'Z') b[i] = (char)('A' + r.below(26));
+        }
+    }
+}
+
 void gen_plan(Rng &r, const GenCfg &cfg, Plan &plan) {
     plan.tasks.clear();
     plan.locale = r.chance(1, 2);
@@ -1063,6 +1113,19 @@ void gen_plan(Rng &r, const GenCfg &cfg, Plan &plan) {
             if (cfg.alloc_focus) { if (!gen_alloc_op(tr, tp, &top, plan.locale)) break; }
             else if (!gen_op(tr, fam, tp, &top, c2, t == stdio_task, plan.locale)) break;
         }
+        // buffer re-use inside a thread: a later call on the very same buffers (same addresses, same sizes) as an earlier
+        // call of this task, with different contents - what a loop that rebuilds its format / input in place does.
+        // Anything the library remembers by address or length rather than by value shows here.
+        if (cfg.reuse && !tp.ops.empty() && tr.chance(1, 4)) {
+            int nclone = 1 + tr.below(2);
+            for (int c = 0; c < nclone && (int)tp.ops.size() < cfg.max_ops + 6; c++) {
+                Op cl = tp.ops[tr.below((uint32_t)tp.ops.size())];
+                if (cl.fn < 0 || cl.fn >= FN_COUNT) continue;
+                cl.late = true;
+                mutate_clone(tr, cl);
+                tp.ops.push_back(cl);
+            }
+        }
         r.next();
         plan.tasks.push_back(tp);
     }
@@ -1079,6 +1142,7 @@ std::string plan_to_text(const Plan &p) {
             else o << "op #" << op.fn;
             for (int i = 0; i < MAXA; i++) o << " " << (long long)op.a[i];
             o << "\n";
+            if (op.late) o << "late 1\n";
             for (const Blob &bl : op.blobs) o << "blob " << bl.off << " " << (bl.bytes.empty() ? "-" : hexs(bl.bytes)) << "\n";
             if (!op.in.empty()) o << "in " << hexs(op.in) << "\n";
             const Fault &f = op.f;
@@ -1134,6 +1198,10 @@ bool parse_replay(const std::string &text, std::map<std::string, std::string> &m
             ls >> b.off >> hx;
             b.bytes = hx == "-" ? std::string() : unhex(hx);
             op->blobs.push_back(b);
+        } else if (kw == "late" && op) {
+            int v = 0;
+            ls >> v;
+            op->late = v != 0;
         } else if (kw == "in" && op) {
             std::string hx;
             ls >> hx;
